@@ -39,6 +39,8 @@ type Exec struct {
 	final       *State
 	entry0      *State
 	retOrd      map[token.Pos]int
+	deferFlag   map[*ast.DeferStmt]types.Object
+	deferSites  []*ast.DeferStmt
 	autoDec     func(*State) Term
 	inlineDepth int
 	paramVals   []Value
